@@ -219,6 +219,10 @@ def report(chk, rec, devs):
 def run(chk, scns):
     sup.set_table(scns)
     recs = pool_map(sup.record_at, range(len(scns)))
+    timeouts = [r for r in recs if "timeout" in r]
+    if timeouts:
+        raise common.MachineryFailure("%d scenario(s) timed out, e.g. %s: %s"
+                                      % (len(timeouts), timeouts[0]["sid"], timeouts[0]["timeout"]))
     build_errors = [r for r in recs if "build_error" in r]
     if build_errors:
         raise common.MachineryFailure("scenario builder failed: %s: %s" % (build_errors[0]["sid"], build_errors[0]["build_error"]))
